@@ -147,7 +147,7 @@ theorem regLive_step (hinv : Inv s) (hn : next Cfg.fixed s i t ch = some (pc', a
     intro r hr
     exact (apply_getInformer_live g f _ _ _).2 (Or.inl (hinv.regLive r hr))
   case addReg cid wid h =>
-    obtain ⟨a, rest, _, hl, _⟩ := hf
+    obtain ⟨a, st, rest, _, hl, _⟩ := hf
     simp only [Act.apply]
     intro r hr
     rcases List.mem_cons.1 hr with rfl | hr'
@@ -235,7 +235,7 @@ theorem own_step (hinv : Inv s) (ht : s.threads[i]? = some t)
     intro r hr
     exact hinv.own r (List.mem_filter.1 hr).1
   case addReg cid wid h =>
-    obtain ⟨a, rest, hpc, _, _⟩ := hf
+    obtain ⟨a, st, rest, hpc, _, _⟩ := hf
     obtain ⟨op, pc⟩ := t
     simp only at hpc
     subst hpc
@@ -448,7 +448,7 @@ theorem stop_step (hinv : Inv s) (ht : s.threads[i]? = some t)
       · simp only [e, if_false] at hc
         exact hinv.cancelStop k c hc
   case addReg cid wid h =>
-    obtain ⟨a, rest, hpc, _, _⟩ := hf
+    obtain ⟨a, st, rest, hpc, _, _⟩ := hf
     obtain ⟨op, pc⟩ := t
     simp only at hpc
     subst hpc
